@@ -678,7 +678,12 @@ func runCell(c cellID, ord, draw int) {
 		}
 	}
 	// over the limit: the documented behaviour is a panic; data must not come back
-	for _, l := range []uint{uint(255*nh + 1), 65536, 65536 + 5, 65536 + uint(nh), 1<<32 + 7} {
+	overLimit := []uint{uint(255*nh + 1), 65536, 65536 + 5, 65536 + uint(nh)}
+	if ^uint(0)>>32 != 0 {
+		big := uint(1) << 31
+		overLimit = append(overLimit, big*2+7) // 2^32+7 where uint has 64 bits
+	}
+	for _, l := range overLimit {
 		for side, ctx := range []hpke.Context{sealer, opener} {
 			var got []byte
 			pn := lib.Try("hpke.Context.Export:over-limit", nil, func() { got = ctx.Export(ectxs[3], l) })
